@@ -47,10 +47,10 @@ type obs struct {
 }
 
 type h struct {
-	sc    scen
-	x     *hx.X
-	done  []atomic.Bool // read by readers while committers run: goes through the scheduler shims
-	errs  []error
+	sc       scen
+	x        *hx.X
+	done     []atomic.Bool // read by readers while committers run: goes through the scheduler shims
+	errs     []error
 	obs      []*obs
 	close    error
 	final    []hx.KV
@@ -507,14 +507,14 @@ func scenarios(prop string, thorough bool) []d1x.Scenario {
 var pairOps = []string{"set", "get", "batch", "scan", "snapget", "metrics", "flush", "ingest", "compact", "excise", "checkpoint"}
 
 type pairH struct {
-	ops   [2]string
-	x     *hx.X
-	mem   *vfs.MemFS
-	res   [2]string
-	errs  [2]error
-	done  [2]bool
-	final string
-	ferr  error
+	ops    [2]string
+	x      *hx.X
+	mem    *vfs.MemFS
+	res    [2]string
+	errs   [2]error
+	done   [2]bool
+	final  string
+	ferr   error
 	close  error
 	ckst   string
 	closed bool
@@ -561,7 +561,7 @@ func renderMap(m map[string]string) string {
 // pairApplyModel returns the result the op reports when run on state m, and mutates m.
 func pairApplyModel(op string, who int, m map[string]string) string {
 	switch op {
-	case "set":
+	case "set", "setsync":
 		m["b"] = fmt.Sprintf("s%d", who)
 	case "batch":
 		m["a"], m["d"] = fmt.Sprintf("x%d", who), fmt.Sprintf("x%d", who)
@@ -575,17 +575,39 @@ func pairApplyModel(op string, who int, m map[string]string) string {
 		m["e"] = fmt.Sprintf("ing%d", who)
 	case "excise":
 		delete(m, "b")
+	case "ingestexcise":
+		m["b"] = fmt.Sprintf("ie%d", who)
+	case "efos":
+		return renderMap(m)
 	}
 	return ""
 }
 
+// run executes the thread's operations: "x>y" is the sequence x, y (results joined by " | ").
 func (s *pairH) run(who int) {
+	var results []string
+	for _, op := range strings.Split(s.ops[who], ">") {
+		s.res[who] = ""
+		if err := s.runOp(who, op); err != nil {
+			s.errs[who] = err
+			break
+		}
+		results = append(results, s.res[who])
+	}
+	s.res[who] = strings.Join(results, " | ")
+	s.done[who] = true
+}
+
+func (s *pairH) runOp(who int, op string) error {
 	d := s.x.D
-	op := s.ops[who]
 	var err error
 	switch op {
 	case "set":
 		err = d.Set([]byte("b"), []byte(fmt.Sprintf("s%d", who)), pebble.NoSync)
+	case "setsync":
+		// a synced write reaches the WAL file before it returns (an unsynced one may stay in the
+		// log writer's buffer, where a checkpoint copying WAL files cannot see it)
+		err = d.Set([]byte("b"), []byte(fmt.Sprintf("s%d", who)), pebble.Sync)
 	case "batch":
 		b := d.NewBatch()
 		b.Set([]byte("a"), []byte(fmt.Sprintf("x%d", who)), nil)
@@ -634,9 +656,22 @@ func (s *pairH) run(who int) {
 		err = d.Excise(context.Background(), pebble.KeyRange{Start: []byte("b"), End: []byte("c")})
 	case "checkpoint":
 		err = d.Checkpoint(fmt.Sprintf("ck%d", who), pebble.WithFlushedWAL())
+	case "ingestexcise":
+		var p string
+		p, err = s.x.BuildSST(hx.Op{K: "ingest", Sub: []hx.Op{{K: "set", Key: "b", Val: fmt.Sprintf("ie%d", who)}}}, fmt.Sprintf("t%d", who))
+		if err == nil {
+			_, err = d.IngestAndExcise(context.Background(), []string{p}, nil, nil, pebble.KeyRange{Start: []byte("b"), End: []byte("c")})
+		}
+	case "efos":
+		// an eventually-file-only snapshot over the whole key space, read at once
+		e := d.NewEventuallyFileOnlySnapshot([]pebble.KeyRange{{Start: []byte("a"), End: []byte("z")}})
+		r, e2 := scan(e, false)
+		s.res[who], err = render(r), e2
+		if cerr := e.Close(); err == nil {
+			err = cerr
+		}
 	}
-	s.errs[who] = err
-	s.done[who] = true
+	return err
 }
 
 func (s *pairH) Threads() []func() {
@@ -692,20 +727,39 @@ func judgePair(hh vsched.Harness, x *vsched.Exec) (string, string, string) {
 		return "close", "close-error", s.close.Error()
 	}
 	out := fmt.Sprintf("%s->[%s] %s->[%s] final{%s}", s.ops[0], s.res[0], s.ops[1], s.res[1], s.final)
+	// allowed: every interleaving of the two threads' operation sequences (each operation atomic)
+	seqs := [2][]string{strings.Split(s.ops[0], ">"), strings.Split(s.ops[1], ">")}
 	var allowed []string
-	for _, order := range [][2]int{{0, 1}, {1, 0}} {
-		m := pairModel0()
-		var res [2]string
-		for _, who := range order {
-			res[who] = pairApplyModel(s.ops[who], who, m)
+	var orders [][]int
+	var gen func(i, j int, cur []int)
+	gen = func(i, j int, cur []int) {
+		if i == len(seqs[0]) && j == len(seqs[1]) {
+			orders = append(orders, append([]int{}, cur...))
+			return
 		}
-		exp := fmt.Sprintf("%s->[%s] %s->[%s] final{%s}", s.ops[0], res[0], s.ops[1], res[1], renderMap(m))
+		if i < len(seqs[0]) {
+			gen(i+1, j, append(cur, 0))
+		}
+		if j < len(seqs[1]) {
+			gen(i, j+1, append(cur, 1))
+		}
+	}
+	gen(0, 0, nil)
+	for _, order := range orders {
+		m := pairModel0()
+		var res [2][]string
+		var next [2]int
+		for _, who := range order {
+			res[who] = append(res[who], pairApplyModel(seqs[who][next[who]], who, m))
+			next[who]++
+		}
+		exp := fmt.Sprintf("%s->[%s] %s->[%s] final{%s}", s.ops[0], strings.Join(res[0], " | "), s.ops[1], strings.Join(res[1], " | "), renderMap(m))
 		if exp == out {
 			return out, "", ""
 		}
 		allowed = append(allowed, exp)
 	}
-	return out, "not-equivalent-to-a-sequential-order", fmt.Sprintf("observed %s; the two sequential orders give %q", out, allowed)
+	return out, "not-equivalent-to-a-sequential-order", fmt.Sprintf("observed %s; the sequential orders give %q", out, allowed)
 }
 
 func pairScenarios() []d1x.Scenario {
@@ -724,6 +778,18 @@ func pairScenarios() []d1x.Scenario {
 				New: func() vsched.Harness { return &pairH{ops: [2]string{a, b}} }})
 		}
 	}
+	// Targeted extras: file-only snapshots and ingest-and-excise against the operations they
+	// synchronise with, and a reader-like operation (checkpoint, file-only snapshot) against a
+	// SEQUENCE of two writes on the other thread - it must observe a prefix of that sequence.
+	for _, e := range [][2]string{
+		{"checkpoint", "ingest>setsync"}, {"checkpoint", "setsync>ingest"}, {"checkpoint", "excise>setsync"},
+		{"efos", "ingestexcise"}, {"efos", "excise"}, {"efos", "ingest>setsync"}, {"efos", "flush"}, {"efos", "batch"},
+		{"ingestexcise", "scan"}, {"ingestexcise", "snapget"}, {"ingestexcise", "set"}, {"ingestexcise", "flush"}, {"ingestexcise", "checkpoint"},
+	} {
+		e := e
+		sc = append(sc, d1x.Scenario{Name: "pair-" + e[0] + "+" + e[1], QuickBound: 0, ThoroughBound: 1, Weight: 1, Judge: judgePair, MaxSteps: 400000,
+			New: func() vsched.Harness { return &pairH{ops: e} }})
+	}
 	return sc
 }
 
@@ -733,6 +799,31 @@ func scenarios1(prop string) []d1x.Scenario {
 	}
 	if prop == "C42" {
 		return pairScenarios()
+	}
+	if prop == "C37" || prop == "C38" {
+		// the concurrency halves of C37 / C38, run as sub-checks of those properties: the reader-like
+		// operation against the writes it synchronises with, preemption bound 1 already in the quick
+		// tier for the sharpest pair
+		mkp := func(a, b string, qb, tb int, w float64) d1x.Scenario {
+			return d1x.Scenario{Name: "pair-" + a + "+" + b, QuickBound: qb, ThoroughBound: tb, Weight: w, Judge: judgePair, MaxSteps: 400000,
+				New: func() vsched.Harness { return &pairH{ops: [2]string{a, b}} }}
+		}
+		if prop == "C38" {
+			return []d1x.Scenario{
+				mkp("checkpoint", "ingest>setsync", 1, 2, 4),
+				mkp("checkpoint", "setsync>ingest", 0, 1, 1),
+				mkp("checkpoint", "excise>setsync", 0, 1, 1),
+				mkp("checkpoint", "ingestexcise", 0, 1, 1),
+				mkp("checkpoint", "batch>flush", 0, 1, 1),
+			}
+		}
+		return []d1x.Scenario{
+			mkp("efos", "ingestexcise", 1, 2, 6),
+			mkp("efos", "excise", 0, 1, 1),
+			mkp("efos", "ingest>setsync", 0, 1, 1),
+			mkp("efos", "flush", 0, 1, 1),
+			mkp("efos", "batch>compact", 0, 1, 1),
+		}
 	}
 	nowal := hx.Config{Name: "nowal", DisableWAL: true}
 	wal := hx.Config{Name: "wal"}
